@@ -517,6 +517,9 @@ func runFrame(fr *frame) {
 		}
 		if fr.i.panicTrace == "" {
 			fr.i.panicTrace = fr.where()
+			if os.Getenv("GOSYM_PANICSTACK") != "" {
+				fmt.Fprintf(os.Stderr, "target panic %v at %s\n%s\n", fr.panic, fr.where(), debug.Stack())
+			}
 		}
 		if fr.i.mode&EnableTracing != 0 {
 			fmt.Fprintf(os.Stderr, "Panicking: %T %v.\n", fr.panic, fr.panic)
